@@ -42,7 +42,7 @@ Definition tok_text (t : tk) : str :=
   | TIdent x => x
   | TDot => $"." | TLBracket => $"[" | TRBracket => $"]" | TLBrace => $"{" | TRBrace => $"}" | TComma => $","
   | TTrue => $"true" | TFalse => $"false" | TNull => $"null"
-  | TInt t => t | TUint t => t | TString t => t | TBytes t => t
+  | TInt t => t | TUint t => t | TString t => t | TBytes t => t | TFloat t => t
   | _ => []
   end.
 
@@ -657,6 +657,8 @@ Fixpoint ids_ok (t : st) : Prop :=
   | SId x => ident_okb x = true
   | SLit (LStr t _) => lexable (TString t)
   | SLit (LBytes t _) => lexable (TBytes t)
+  | SLit (LDbl t) => lexable (TFloat t)
+  | SNegDbl t => lexable (TFloat t)
   | SLit _ => True
   | SNegLit _ => True
   | SSel a f => ids_ok a /\ ident_okb f = true
@@ -706,7 +708,7 @@ Qed.
 
 Lemma simple_lit l : wf_lit l = true -> ids_ok (SLit l) -> lexable (lit_tk l).
 Proof.
-  destruct l as [z|z|[]| |t s|t b]; cbn [wf_lit lit_tk ids_ok]; intros W I; try exact I;
+  destruct l as [z|z|[]| |t s|t b|t]; cbn [wf_lit lit_tk ids_ok]; intros W I; try exact I;
     apply simple_lexable; try reflexivity; cbn [simple_tok].
   - apply andb_prop in W as [W0 _]. destruct (nat_digits_ok z ltac:(lia)) as (_ & H2 & H3).
     rewrite H2. now destruct (nat_digits z).
@@ -723,6 +725,7 @@ Proof.
   - cbn [raw]. apply lexable_one. now apply simple_lit.
   - cbn [raw]. apply andb_prop in W as [W0 _]. apply simple_cons; [reflexivity|]. apply simple_one. cbn [simple_tok].
     destruct (nat_digits_ok (- z) ltac:(lia)) as (_ & H2 & H3). rewrite H2. now destruct (nat_digits (- z)).
+  - cbn [raw]. apply simple_cons; [reflexivity|]. now apply lexable_one.
   - destruct I as [Ia If]. cbn [raw]. fold (tk_at 7 t). apply simple_app; [apply simple_tk_at; auto|].
     apply simple_cons; [reflexivity|]. now apply simple_one.
   - destruct W as [Wa Wi]. destruct I as [Ia Ii]. cbn [raw]. fold (tk_at 7 t1).
